@@ -12,6 +12,27 @@ Proof.
   Z.div_mod_to_equations. lia.
 Qed.
 
+(** the all-ones substitute of a zero checksum verifies just as the zero would *)
+Lemma fold16_add_ffff s : 0 <= s < 4294901760 -> fold16 s = 65535 -> fold16 (s + 65535) = 65535.
+Proof. unfold fold16, fold1. intros Hs H. Z.div_mod_to_equations. lia. Qed.
+
+Theorem udp_checksum_field_verifies pre post init :
+  Nat.even (length pre) = true -> Forall byte_ok (pre ++ [0; 0] ++ post) -> 0 <= init < 16777216 ->
+  len (pre ++ [0; 0] ++ post) <= 60000 ->
+  verifies (pre ++ u16b (udp_ck (cksum (pre ++ [0; 0] ++ post) init)) ++ post) init = true.
+Proof.
+  intros He Hb Hi Hl. unfold udp_ck. destruct (cksum (pre ++ [0; 0] ++ post) init =? 0) eqn:E0.
+  - apply Z.eqb_eq in E0. unfold verifies. unfold cksum in E0. unfold len in Hl.
+    pose proof (sum16_bound _ init Hb) as B.
+    set (s := sum16 (pre ++ [0; 0] ++ post) init) in *.
+    assert (Hs : 0 <= s < 4294901760) by lia.
+    rewrite sum16_put by (auto; lia). fold s. rewrite fold16_add_ffff by (auto; lia). reflexivity.
+  - apply checksum_field_verifies; assumption.
+Qed.
+
+Lemma udp_ck_range c : 0 <= c <= 65535 -> 1 <= udp_ck c <= 65535.
+Proof. intros H. unfold udp_ck. destruct (c =? 0) eqn:E; [lia|]. apply Z.eqb_neq in E. lia. Qed.
+
 (** every UDP segment the builders emit verifies against the pseudo-header *)
 Theorem udp_segment_checksum src dst sport dport payload :
   Forall byte_ok src -> Forall byte_ok dst -> (length src <= 16)%nat -> (length dst <= 16)%nat ->
@@ -25,10 +46,10 @@ Proof.
   assert (E0 : s0 = pre ++ [0; 0] ++ payload) by (unfold s0, pre, u16b; reflexivity).
   assert (Lpre : len pre = 6) by (unfold pre, u16b, len; reflexivity).
   rewrite (put16_split 6 _ s0 pre payload E0 (eq_sym Lpre)).
-  assert (Ll : len (pre ++ u16b (cksum s0 (pseudo src dst 17 l)) ++ payload) = l).
+  assert (Ll : len (pre ++ u16b (udp_ck (cksum s0 (pseudo src dst 17 l))) ++ payload) = l).
   { unfold l, len. rewrite !app_length. unfold pre, u16b. cbn [length app]. lia. }
   rewrite Ll. rewrite E0.
-  apply checksum_field_verifies.
+  apply udp_checksum_field_verifies.
   - unfold pre, u16b. reflexivity.
   - unfold pre. repeat (apply Forall_app; split); auto using u16b_ok; repeat constructor; unfold byte_ok; lia.
   - apply pseudo_bound; auto; try lia. unfold l, len. lia.
@@ -49,4 +70,32 @@ Proof.
   - repeat (apply Forall_app; split); auto using u16b_ok; repeat constructor; auto; unfold byte_ok; lia.
   - apply pseudo_bound; auto; try lia. unfold u16b, len. cbn. lia.
   - unfold u16b, len. cbn. lia.
+Qed.
+
+(** the checksum field of every UDP segment the builders emit is non-zero (RFC 768; RFC 8200 section 8.1: an IPv6
+    receiver discards a UDP datagram whose checksum field is zero), for every address, port and payload *)
+Theorem udp_segment_checksum_nonzero src dst sport dport payload :
+  Forall byte_ok src -> Forall byte_ok dst -> (length src <= 16)%nat -> (length dst <= 16)%nat ->
+  Forall byte_ok payload -> (length payload <= 1000)%nat ->
+  let seg := udp_segment src dst sport dport payload in
+  1 <= be16 (nth 6 seg 0) (nth 7 seg 0) <= 65535.
+Proof.
+  intros Hs Hd Ls Ld Hp Lp. cbn zeta. unfold udp_segment.
+  set (l := 8 + len payload).
+  set (pre := u16b sport ++ u16b dport ++ u16b l).
+  set (s0 := u16b sport ++ u16b dport ++ u16b l ++ [0; 0] ++ payload).
+  assert (E0 : s0 = pre ++ [0; 0] ++ payload) by (unfold s0, pre, u16b; reflexivity).
+  assert (Lpre : len pre = 6) by (unfold pre, u16b, len; reflexivity).
+  rewrite (put16_split 6 _ s0 pre payload E0 (eq_sym Lpre)).
+  set (v := udp_ck _).
+  assert (Hv : 1 <= v <= 65535).
+  { unfold v. apply udp_ck_range. unfold cksum.
+    assert (Hb : Forall byte_ok s0).
+    { rewrite E0. unfold pre. repeat (apply Forall_app; split); auto using u16b_ok; repeat constructor; unfold byte_ok; lia. }
+    pose proof (sum16_bound s0 (pseudo src dst 17 l) Hb) as B.
+    assert (Pb : 0 <= pseudo src dst 17 l < 16777216) by (apply pseudo_bound; auto; try lia; unfold l, len; lia).
+    assert (Ls0 : (length s0 <= 1008)%nat) by (unfold s0, u16b; rewrite !app_length; cbn [length]; lia).
+    destruct (fold16_range (sum16 s0 (pseudo src dst 17 l)) ltac:(lia)) as [R1 _]. lia. }
+  unfold pre, u16b. cbn [app nth]. unfold be16.
+  Z.div_mod_to_equations. lia.
 Qed.
